@@ -28,9 +28,9 @@ ASSUMPTIONS = ['documented domain = TBRMMDesignParameters class docstring; where
                'equal float pairs) the value is recorded as unspecified and not judged',
                'budget_range upper end must be finite is NOT assumed (inf is unspecified)']
 EXHAUSTIVE = {'quick': True, 'thorough': True}
-MINIMA = {'quick': {'judged': 600, 'accepts': 100, 'rejects': 300, 'set:field_outcomes': 32,
+MINIMA = {'quick': {'valid_pairs': 600, 'judged': 600, 'accepts': 100, 'rejects': 300, 'set:field_outcomes': 32,
                     'distinct_nontrivial': 600},
-          'thorough': {'judged': 20000, 'accepts': 2000, 'rejects': 8000, 'set:field_outcomes': 32,
+          'thorough': {'valid_pairs': 600, 'judged': 20000, 'accepts': 2000, 'rejects': 8000, 'set:field_outcomes': 32,
                        'distinct_nontrivial': 20000}}
 INF = float('inf')
 NAN = float('nan')
@@ -297,6 +297,21 @@ def run_case(spec):
     g1 = scalar_grid(f1) if f1 in SCALARS else range_grid(f1)
     g2 = scalar_grid(f2) if f2 in SCALARS else range_grid(f2)
     judge(P, ((f1, r.choice(g1)), (f2, r.choice(g2))), counters, violations, fps, per_field)
+  # every pair of fields with documented-valid values for both: fields are validated independently
+  valid_vals = {'n_test': [1, 14, 400], 'iroas': [0.0, 2.5], 'volume_ratio_tolerance': [0.01, 50.0, None],
+                'geo_ratio_tolerance': [0.01, 50.0, None], 'treatment_share_range': [(0.01, 0.99), (0.4, 0.5), None],
+                'budget_range': [(0.0, 1.0), (5.0, 1e9), None], 'treatment_geos_range': [(1, 1), (1, 100), (50, 60), None],
+                'control_geos_range': [(1, 1), (2, 100), (50, 60), None], 'n_geos_max': [2, 20, 1000, None],
+                'n_pretest_max': [3, 90, 5000], 'n_designs': [1, 100000], 'rho_max': [0.9, 0.9999], 'sig_level': [0.001, 0.999],
+                'power_level': [0.001, 0.999], 'min_corr': [0.8, 0.9999], 'flevel': [0.9, 0.9999]}
+  pairs_all = list(itertools.combinations(FIELDS, 2))
+  for j, (f1, f2) in enumerate(pairs_all):
+    if j % chunks != idx:
+      continue
+    for v1 in valid_vals[f1]:
+      for v2 in valid_vals[f2]:
+        judge(P, ((f1, v1), (f2, v2)), counters, violations, fps, per_field)
+        counters['valid_pairs'] += 1
   # defaults and equality (once per chunk, cheap)
   base = util.call(lambda: P(**base_kwargs()))
   if not base.ok:
